@@ -45,6 +45,7 @@ class Repository(object):
         self.cmd_directory = self.tmp_directory
         self._remote_heads = defaultdict(set)
         self._remote_branches = dict()
+        self._removed_branches = set()
 
     def delete(self):
         def onerror_cb(func, path, excinfo):
@@ -153,9 +154,23 @@ class Repository(object):
             raise PushFailedException(name) from err
 
     def push_all(self, prune=False):
-        prune = '--prune' if prune else ''
+        command = 'git push --all --atomic'
+        if prune:
+            # Only delete the remote branches this clone removed itself:
+            # `--prune` would also delete the branches somebody created
+            # on the remote after the clone.
+            refs = self.cmd('git for-each-ref --format="%(refname)" '
+                            'refs/heads refs/remotes/origin').split()
+            removed = [name for name in sorted(self._removed_branches)
+                       if 'refs/remotes/origin/' + name in refs and
+                       'refs/heads/' + name not in refs]
+            if removed:
+                command = ("git push --atomic origin "
+                           "'refs/heads/*:refs/heads/*' " +
+                           ' '.join("':refs/heads/%s'" % name
+                                    for name in removed))
         try:
-            self.cmd('git push --all --atomic %s' % prune)
+            self.cmd(command)
         except CommandError as err:
             raise PushFailedException(err) from err
 
@@ -274,6 +289,7 @@ class Branch(object):
 
         if del_local:
             self.repo.cmd('git branch -D %s', self.name)
+            self.repo._removed_branches.add(self.name)
 
         if not do_push:
             return
